@@ -28,12 +28,12 @@ example : d2p [(-1 : ℚ), 0] [2, 3] (p2d [(-1 : ℚ), 0] [2, 3] [1/8, -3/8]) = 
         have : i = 0 ∨ i = 1 := by simp at h1; omega
         rcases this with rfl | rfl <;> norm_num)).1
 
-/-! ### N = 2..5: the inverse map on cell centres -/
+/-! ### `Ev.DimOK N`: the inverse map on cell centres -/
 
 /-- **C09 (inverse of a centre)**: for a valid digit list `ds` (length `m`, base-`2^n` digits), the
 centre of its cell, `y_i = (cubeY n ds)_i / 2^(m+1)`, is mapped by `__GetXonY` to
 `indexOf n ds / (2^n)^m`, the left end of the subinterval with these digits. -/
-theorem C09_inverse_of_centre {n : Nat} (hn : 2 ≤ n ∧ n ≤ 5) (ds : List Nat)
+theorem C09_inverse_of_centre {n : Nat} (hn : Ev.DimOK n) (ds : List Nat)
     (hd : validDigits n ds) :
     inverseCube n ds.length ((cubeY n ds).map fun (Y : Int) => (Y : α) / 2^(ds.length + 1)) =
       (indexOf n ds : α) / (2^n)^ds.length :=
@@ -41,40 +41,40 @@ theorem C09_inverse_of_centre {n : Nat} (hn : 2 ≤ n ∧ n ≤ 5) (ds : List Na
 
 /-- non-vacuity of `C09_inverse_of_centre`: `n = 2`, digits `[1, 2]`, subinterval `6` of `16`. -/
 example : inverseCube 2 2 ((cubeY 2 [1, 2]).map fun (Y : Int) => (Y : ℚ) / 2^(2 + 1)) = 6 / 16 := by
-  have h := C09_inverse_of_centre (α := ℚ) (n := 2) (by omega) [1, 2] (by decide)
+  have h := C09_inverse_of_centre (α := ℚ) (n := 2) (by decide) [1, 2] (by decide)
   simp only [List.length_cons, List.length_nil] at h
   rw [h]; norm_num [indexOf]
 
 /-- **C09 (inverse of the image)**: for `0 ≤ x < 1`, `__GetXonY (__GetYonX x)` is `x` rounded
 down to the subinterval grid: `⌊x·(2^n)^m⌋₊ / (2^n)^m`. -/
-theorem C09_inverse_image {n : Nat} (hn : 2 ≤ n ∧ n ≤ 5) (m : Nat) (x : α) (h0 : 0 ≤ x)
+theorem C09_inverse_image {n : Nat} (hn : Ev.DimOK n) (m : Nat) (x : α) (h0 : 0 ≤ x)
     (h1 : x < 1) :
     inverseCube n m (imageCube n m x) = (⌊x * (2^n)^m⌋₊ : α) / (2^n)^m :=
   Num.inverse_image_cube hn m x h0 h1
 
 /-- **C09 (inverse of the image, end rule)**: for `x ≥ 1` the round trip gives the left end of the
 last subinterval, `((2^n)^m - 1) / (2^n)^m`. -/
-theorem C09_inverse_image_end {n : Nat} (hn : 2 ≤ n ∧ n ≤ 5) (m : Nat) (x : α) (h1 : 1 ≤ x) :
+theorem C09_inverse_image_end {n : Nat} (hn : Ev.DimOK n) (m : Nat) (x : α) (h1 : 1 ≤ x) :
     inverseCube n m (imageCube n m x) = ((2^n)^m - 1) / (2^n)^m :=
   Num.inverse_image_cube_end hn m x h1
 
 /-- non-vacuity of `C09_inverse_image`: `n = 2`, `m = 2`, `x = 3/7 ↦ 6/16`. -/
 example : inverseCube 2 2 (imageCube 2 2 (3/7 : ℚ)) = 6 / 16 := by
-  rw [C09_inverse_image (α := ℚ) (n := 2) (by omega) 2 (3/7) (by norm_num) (by norm_num)]
+  rw [C09_inverse_image (α := ℚ) (n := 2) (by decide) 2 (3/7) (by norm_num) (by norm_num)]
   have e : ⌊(3/7 : ℚ) * (2^2)^2⌋₊ = 6 := by
     rw [Nat.floor_eq_iff (by norm_num)]; norm_num
   rw [e]; norm_num
 
 /-- non-vacuity of `C09_inverse_image_end` -/
 example : inverseCube 2 2 (imageCube 2 2 (1 : ℚ)) = 15 / 16 := by
-  rw [C09_inverse_image_end (α := ℚ) (n := 2) (by omega) 2 1 (le_refl _)]; norm_num
+  rw [C09_inverse_image_end (α := ℚ) (n := 2) (by decide) 2 1 (le_refl _)]; norm_num
 
 /-- **C09 (image of the inverse)**: for an arbitrary cube point `y` (`n` coordinates, each
 `|y_i| ≤ 1/2`) the digits `ds` recovered by `__GetXonY` are valid, `__GetXonY y` is the left end
 `indexOf n ds / (2^n)^m` of their subinterval, and `__GetYonX (__GetXonY y)` is the centre of the
 cell of `ds`, which is within half a cell width `2^-(m+1)` of `y` in every coordinate — i.e. the
 centre of the cell containing `y`. -/
-theorem C09_image_of_inverse {n : Nat} (hn : 2 ≤ n ∧ n ≤ 5) (m : Nat) (y : List α)
+theorem C09_image_of_inverse {n : Nat} (hn : Ev.DimOK n) (m : Nat) (y : List α)
     (hy : y.length = n) (hb : ∀ yi ∈ y, |yi| ≤ 1 / 2) :
     ∃ ds : List Nat, validDigits n ds ∧ ds.length = m ∧
       inverseCube n m y = (indexOf n ds : α) / (2^n)^m ∧
@@ -88,18 +88,18 @@ theorem C09_image_of_inverse {n : Nat} (hn : 2 ≤ n ∧ n ≤ 5) (m : Nat) (y :
 example : ∀ (i : Nat) (h1 : i < [(1/5 : ℚ), -1/3].length)
     (h2 : i < (imageCube 2 2 (inverseCube 2 2 [(1/5 : ℚ), -1/3])).length),
     |[(1/5 : ℚ), -1/3][i] - (imageCube 2 2 (inverseCube 2 2 [(1/5 : ℚ), -1/3]))[i]| ≤ 1 / 2^(2+1) := by
-  obtain ⟨_, _, _, _, _, _, h⟩ := C09_image_of_inverse (α := ℚ) (n := 2) (by omega) 2
+  obtain ⟨_, _, _, _, _, _, h⟩ := C09_image_of_inverse (α := ℚ) (n := 2) (by decide) 2
     [1/5, -1/3] rfl (by
       intro yi hyi
       simp only [List.mem_cons, List.not_mem_nil, or_false] at hyi
       rcases hyi with rfl | rfl <;> rw [abs_le] <;> constructor <;> norm_num)
   exact h
 
-/-! ### N = 2..5: end-to-end on the box -/
+/-! ### `Ev.DimOK N`: end-to-end on the box -/
 
 /-- **C09 (GetInverseImage ∘ GetImage)**: for bounds with `lower_i ≠ upper_i` and `0 ≤ x < 1`,
 `GetInverseImage (GetImage x)` is `x` rounded down to the subinterval grid. -/
-theorem C09_getInverseImage_getImage {n : Nat} (hn : 2 ≤ n ∧ n ≤ 5) (m : Nat)
+theorem C09_getInverseImage_getImage {n : Nat} (hn : Ev.DimOK n) (m : Nat)
     (lower upper : List α) (hl : lower.length = n) (hu : upper.length = n)
     (hne : ∀ i (h1 : i < lower.length) (h2 : i < upper.length), lower[i] ≠ upper[i])
     (x : α) (h0 : 0 ≤ x) (h1 : x < 1) :
@@ -109,7 +109,7 @@ theorem C09_getInverseImage_getImage {n : Nat} (hn : 2 ≤ n ∧ n ≤ 5) (m : N
 
 /-- **C09 (GetInverseImage ∘ GetImage, end rule)**: for `x ≥ 1` the result is the left end of the
 last subinterval. -/
-theorem C09_getInverseImage_getImage_end {n : Nat} (hn : 2 ≤ n ∧ n ≤ 5) (m : Nat)
+theorem C09_getInverseImage_getImage_end {n : Nat} (hn : Ev.DimOK n) (m : Nat)
     (lower upper : List α) (hl : lower.length = n) (hu : upper.length = n)
     (hne : ∀ i (h1 : i < lower.length) (h2 : i < upper.length), lower[i] ≠ upper[i])
     (x : α) (h1 : 1 ≤ x) :
@@ -119,7 +119,7 @@ theorem C09_getInverseImage_getImage_end {n : Nat} (hn : 2 ≤ n ∧ n ≤ 5) (m
 /-- **C09 (GetImage ∘ GetInverseImage)**: for bounds with `lower_i < upper_i` and a box point `y`
 (`lower_i ≤ y_i ≤ upper_i`), `GetImage (GetInverseImage y)` has `n` coordinates and is within half
 a cell width `(upper_i - lower_i) / 2^(m+1)` of `y` in every coordinate. -/
-theorem C09_getImage_getInverseImage {n : Nat} (hn : 2 ≤ n ∧ n ≤ 5) (m : Nat)
+theorem C09_getImage_getInverseImage {n : Nat} (hn : Ev.DimOK n) (m : Nat)
     (lower upper y : List α) (hl : lower.length = n) (hu : upper.length = n) (hy : y.length = n)
     (hlt : ∀ i (h1 : i < lower.length) (h2 : i < upper.length), lower[i] < upper[i])
     (hin : ∀ i (h0 : i < y.length) (h1 : i < lower.length) (h2 : i < upper.length),
@@ -134,7 +134,7 @@ theorem C09_getImage_getInverseImage {n : Nat} (hn : 2 ≤ n ∧ n ≤ 5) (m : N
 /-- non-vacuity of the end-to-end statements: box `[-1,2] × [0,3]`, `m = 2`. -/
 example : getInverseImage 2 2 [(-1 : ℚ), 0] [2, 3] (getImage 2 2 [(-1 : ℚ), 0] [2, 3] (3/7)) =
     6 / 16 := by
-  rw [C09_getInverseImage_getImage (α := ℚ) (n := 2) (by omega) 2 [(-1 : ℚ), 0] [2, 3] rfl rfl
+  rw [C09_getInverseImage_getImage (α := ℚ) (n := 2) (by decide) 2 [(-1 : ℚ), 0] [2, 3] rfl rfl
     (by intro i h1 h2
         have : i = 0 ∨ i = 1 := by simp at h1; omega
         rcases this with rfl | rfl <;> norm_num) (3/7) (by norm_num) (by norm_num)]
@@ -144,7 +144,7 @@ example : getInverseImage 2 2 [(-1 : ℚ), 0] [2, 3] (getImage 2 2 [(-1 : ℚ), 
 
 example : (getImage 2 2 [(-1 : ℚ), 0] [2, 3]
     (getInverseImage 2 2 [(-1 : ℚ), 0] [2, 3] [1/2, 5/2])).length = 2 :=
-  (C09_getImage_getInverseImage (α := ℚ) (n := 2) (by omega) 2 [(-1 : ℚ), 0] [2, 3] [1/2, 5/2]
+  (C09_getImage_getInverseImage (α := ℚ) (n := 2) (by decide) 2 [(-1 : ℚ), 0] [2, 3] [1/2, 5/2]
     rfl rfl rfl
     (by intro i h1 h2
         have : i = 0 ∨ i = 1 := by simp at h1; omega
